@@ -6,6 +6,7 @@ import (
 	"os"
 	"path/filepath"
 	"sort"
+	"strings"
 	"sync"
 
 	"github.com/bmatcuk/doublestar/v4"
@@ -348,6 +349,13 @@ func (l *Loader) expandGlob(basePath, pattern string) ([]string, error) {
 	dir := filepath.Dir(basePath)
 
 	pattern = ConvertHledgerGlob(pattern)
+
+	// "~/" names the home directory, as it does in an include without a pattern
+	if strings.HasPrefix(pattern, "~/") {
+		if home, err := os.UserHomeDir(); err == nil {
+			pattern = filepath.Join(home, pattern[2:])
+		}
+	}
 
 	if !filepath.IsAbs(pattern) {
 		pattern = filepath.Join(dir, pattern)
